@@ -73,6 +73,26 @@ ASSUMPTIONS = ASSUMPTIONS + c02_callgraph.ASSUMPTIONS
 RULE = RULE + '; ' + c02_callgraph.RULE
 # ---- end
 # ---- end: value-constraint model
+# ---- begin: openloop model (Model/OpenLoop.lean, Props/C02o.lean, driver pv_openloop, harness/checks/c02_openloop.py)
+DRIVERS = DRIVERS + c02_openloop.DRIVERS
+MODULE = MODULE + [c02_openloop.MODULE]
+THEOREMS = THEOREMS + c02_openloop.THEOREMS
+THEOREM_MODULE.update(c02_openloop.THEOREM_MODULE)
+# the two statements above that called the open-loop scheduler unmodelled are superseded by the sub-module's own
+TRUSTED = [t for t in TRUSTED if not t.startswith('OpenLoopCLPass: the mapping actual method')] + c02_openloop.TRUSTED
+ASSUMPTIONS = [a for a in ASSUMPTIONS if not a.startswith('open-loop simulation (OpenLoopCLPass / AutoTickSimPass): NOT modelled')] + c02_openloop.ASSUMPTIONS
+RULE = RULE + '; ' + c02_openloop.RULE
+# ---- end: openloop model
+# ---- begin: astrw — read / write / call extraction from update-block source (Model/AstRW.lean, Props/C02a.lean, driver pv_astrw, harness/checks/c02_astrw.py)
+from . import c02_astrw
+DRIVERS = DRIVERS + c02_astrw.DRIVERS
+MODULE = MODULE + [c02_astrw.MODULE]
+THEOREMS = THEOREMS + c02_astrw.THEOREMS
+THEOREM_MODULE.update(c02_astrw.THEOREM_MODULE)
+TRUSTED = TRUSTED + c02_astrw.TRUSTED
+ASSUMPTIONS = ASSUMPTIONS + c02_astrw.ASSUMPTIONS
+RULE = RULE + '; ' + c02_astrw.RULE
+# ---- end: astrw
 
 FLOWS = ['default', 'simple', 'heutopo', 'mamba', 'unroll']
 
@@ -321,6 +341,7 @@ def run(ck):
   # last on purpose: ck.count draws from ck.rng, so a stream inserted earlier would change the designs of the streams above
   c02_openloop.run(ck)      # open-loop (AutoTickSimPass) schedule with top-level callee ports vs the declared constraints
   c02_callgraph.run(ck)     # expansion of @s.func helper calls into the calling block's read/write sets
+  c02_astrw.run(ck)         # astrw: the read / write / call sets extracted from the source of update blocks (AstHelper)
 
 def replay(ck, data):
   print(data.get('kind'), data.get('signature')); print(str(data.get('detail'))[:1500])
@@ -329,4 +350,5 @@ def replay(ck, data):
   if (data.get('case') or {}).get('greenlet'): return c02_greenlet.replay(ck, data['case'])
   if (data.get('case') or {}).get('openloop'): return c02_openloop.replay(ck, data['case'])
   if (data.get('case') or {}).get('callgraph'): return c02_callgraph.replay(ck, data['case'])
+  if (data.get('case') or {}).get('astrw'): return c02_astrw.replay(ck, data['case'])   # astrw
   return rtlgen.replay_source(ck, data.get('case') or {})
